@@ -133,7 +133,7 @@ extern int mpt_text_set(MPT_STRUCT(text) *tx, const char *name, MPT_INTERFACE(co
 		if ((type = mpt_text_pointer_typeid()) > 0
 		 && (len = src->_vptr->convert(src, type, &from)) >= 0) {
 			mpt_text_fini(tx);
-			mpt_text_init(tx, from);
+			mpt_text_init(tx, len ? from : 0);
 			return 0;
 		}
 		return MPT_ERROR(BadType);
